@@ -339,19 +339,28 @@ StructIsView(f, s, src, newimap, newsh) ==
     [] f = "ravel"    -> Len(newimap) <= 1 \/ Consecutive(newimap)
     [] OTHER          -> FALSE
 
+\* `where=mask` WITHOUT `out=` (field wm : [sh, v] of booleans, broadcastable to the result): NumPy leaves the masked-out
+\* cells of the fresh result uninitialised; the harness zeroes them on both sides right after the call, so the result
+\* is  f(x, y)  where the mask holds and the constant 0 elsewhere - and the masked-out cells pass nothing back
+Masked(s, sh, cells) ==
+  IF ~Has(s, "wm") THEN cells
+  ELSE LET gm == BGather(s.wm.sh, sh) IN [p \in 1..Len(cells) |-> IF s.wm.v[gm[p]] THEN cells[p] ELSE DC(RZero)]
+MaskOpnd(s, os) == IF Has(s, "wm") THEN os \o <<[arr |-> s.wm]>> ELSE os
+
 \* ------------------------------------------------------------------ the `op` statement
 \* s = [k |-> "op", h, f, a (Seq of operands), kw (optional), + per-f parameters]
 ApplyOp(st, s) ==
   LET f == s.f os == s.a kw == Kw(s, "kw", <<>>) IN
   CASE Bin(f) ->
         LET sh == BShape(OpSh(st, os[1]), OpSh(st, os[2])) IN
-        MkResultL(st, s, sh, BinCells(st, f, os[1], os[2]), os, ElementwiseLayout(st, os, sh))
+        MkResultL(st, s, sh, Masked(s, sh, BinCells(st, f, os[1], os[2])), os, ElementwiseLayout(st, MaskOpnd(s, os), sh))
     [] f = "power" ->   \* integer exponent given as parameter s.p  (x ** p)
         LET c == OpCells(st, os[1]) IN
         MkResultL(st, s, OpSh(st, os[1]), [i \in 1..Len(c) |-> DPowInt(c[i], s.p)], os, ElementwiseLayout(st, os, OpSh(st, os[1])))
     [] Un(f) ->
         LET c == OpCells(st, os[1]) IN
-        MkResultL(st, s, OpSh(st, os[1]), [i \in 1..Len(c) |-> UnK(f, c[i])], os, ElementwiseLayout(st, os, OpSh(st, os[1])))
+        MkResultL(st, s, OpSh(st, os[1]), Masked(s, OpSh(st, os[1]), [i \in 1..Len(c) |-> UnK(f, c[i])]), os,
+                  ElementwiseLayout(st, MaskOpnd(s, os), OpSh(st, os[1])))
     [] Un2(f) ->
         LET c == OpCells(st, os[1]) IN
         MkResultL(st, s, OpSh(st, os[1]), [i \in 1..Len(c) |-> Un2K(f, s, c[i])], os, ElementwiseLayout(st, os, OpSh(st, os[1])))
